@@ -276,7 +276,8 @@ class AntSystem:
         """Map reward $f: \\mathbb{R} \\rightarrow \\mathbb{R}^+$"""
         M, _ = x.max(-1, keepdim=True)
         m, _ = x.min(-1, keepdim=True)
-        v = ((x - m) / (M - m)) ** 2 * self.Q
+        # all ants of an instance may obtain the same reward (converged colony): deposit nothing instead of 0/0
+        v = ((x - m) / (M - m).clamp_min(1e-10)) ** 2 * self.Q
         return v
 
     def _recreate_final_routes(self, td, env, action_matrix):
